@@ -282,6 +282,28 @@ impl serde::de::Error for DeserializeError {
 	}
 }
 
+/// Hands a number to the visitor: as an integer when it is a 64-bit integer
+/// literal, as the nearest `f64` otherwise.
+///
+/// `str::parse` is correctly rounded, the lossy parser behind
+/// `NumberBuf::deserialize_any` is not.
+fn visit_number<'de, V>(n: NumberBuf, visitor: V) -> Result<V::Value, DeserializeError>
+where
+	V: serde::de::Visitor<'de>,
+{
+	if let Some(u) = n.as_u64() {
+		visitor.visit_u64(u)
+	} else if let Some(i) = n.as_i64() {
+		visitor.visit_i64(i)
+	} else {
+		visitor.visit_f64(
+			n.as_str()
+				.parse()
+				.unwrap_or_else(|_| n.as_f64_lossy()),
+		)
+	}
+}
+
 macro_rules! deserialize_number {
 	($method:ident) => {
 		fn $method<V>(self, visitor: V) -> Result<V::Value, Self::Error>
@@ -289,7 +311,7 @@ macro_rules! deserialize_number {
 			V: serde::de::Visitor<'de>,
 		{
 			match self {
-				Value::Number(n) => Ok(n.deserialize_any(visitor)?),
+				Value::Number(n) => visit_number(n, visitor),
 				_ => Err(self.invalid_type(&visitor)),
 			}
 		}
@@ -307,7 +329,7 @@ impl<'de> serde::Deserializer<'de> for Value {
 		match self {
 			Self::Null => visitor.visit_unit(),
 			Self::Boolean(v) => visitor.visit_bool(v),
-			Self::Number(n) => Ok(n.deserialize_any(visitor)?),
+			Self::Number(n) => visit_number(n, visitor),
 			Self::String(s) => visitor.visit_string(s.into_string()),
 			Self::Array(a) => visit_array(a, visitor),
 			Self::Object(o) => visit_object(o, visitor),
